@@ -768,9 +768,10 @@ impl<'a> Iterator for ReplicasOrderedNTSIterator<'a> {
                 // We're going to find the primary replica for the given token.
                 let nodes_on_ring = locator.replication_data.get_global_ring().ring_range(token);
                 for node in nodes_on_ring {
-                    // If this node's DC has some replicas in this NTS...
+                    // If this node's DC has some replicas in this NTS
+                    // (a DC listed with replication factor 0 has none)...
                     if let Some(dc) = &node.datacenter
-                        && datacenter_repfactors.get(dc).is_some()
+                        && datacenter_repfactors.get(dc).is_some_and(|rf| *rf > 0)
                     {
                         // ...then this node must be the primary replica.
                         self.inner = ReplicasOrderedNTSIteratorInner::Picked {
